@@ -716,8 +716,8 @@ func (e *Exec) exec1(op string, pos []string, kv map[string]string, line string)
 		b.Height = pre.Height + 1
 		// award tx
 		aw := &TxInfo{Coinbase: true, From: "-", Outs: []OutInfo{{Addr: b.Prop, Amt: big.NewInt(w.Award)}}}
-		if kv["award"] != "" {
-			a, _ := new(big.Int).SetString(kv["award"], 10)
+		if kv["aa"] != "" {
+			a, _ := new(big.Int).SetString(kv["aa"], 10)
 			aw.Outs[0].Amt = a
 		}
 		w.addTx(aw)
@@ -726,7 +726,7 @@ func (e *Exec) exec1(op string, pos []string, kv map[string]string, line string)
 		}
 		var err error
 		aw.Tx, err = w.Main.AwardTx(w.AddrOf[b.Prop], b.Height)
-		if kv["award"] != "" {
+		if kv["aa"] != "" && err == nil {
 			aw.Tx.TxOutputs[0].Amount = aw.Outs[0].Amt.Bytes()
 		}
 		if err != nil {
